@@ -9,7 +9,8 @@
    the main definitions describe the repaired code, the [_orig] ones the pinned code:
      get_names_orig      : _get_names returned the raw list, possibly with repeated names        (F6)
      restricted_metric_orig : _restricted_metric dropped the unit                                (F7)
-     select_orig         : RestrictedRegistry.collect never looked up the name 'target_info'     (F18) *)
+     select_orig         : RestrictedRegistry.collect never looked up the name 'target_info'     (F18)
+     merge = false       : register overwrote the names recorded for an already registered collector (F20) *)
 From V Require Import lib.PyBase.
 Open Scope N_scope.
 
@@ -88,14 +89,19 @@ Definition get_names (a : bool) (c : cbeh) : list str := dedup (get_names_orig a
 Section Registry.
   Variable env : cid -> cbeh.
 
+  (* names recorded for c so far ([] when it is not registered) *)
+  Definition recorded (r : reg) (c : cid) : list str :=
+    match d_find N.eqb (c2n r) c with Some ns => ns | None => [] end.
+
   Section Gen.
   Variable gn : bool -> cbeh -> list str.       (* _get_names *)
+  Variable merge : bool.   (* true: a collector registered again keeps the names recorded earlier (repaired code) *)
 
   (* registry.py:37-48 *)
   Definition register_gen (r : reg) (c : cid) : reg * option exn :=
     let names := gn (auto r) (env c) in
     if existsb (d_mem str_eqb (n2c r)) names then (r, Some ValueError)
-    else (mk_reg (d_set N.eqb (c2n r) c names)
+    else (mk_reg (d_set N.eqb (c2n r) c ((if merge then recorded r c else []) ++ names))
                  (fold_left (fun d n => d_set str_eqb d n (Coll c)) names (n2c r))
                  (ti r) (auto r), None).
 
@@ -128,23 +134,28 @@ Section Registry.
     else
       (mk_reg (c2n r) (if nonempty (ti r) then d_remove str_eqb (n2c r) TI_NAME else n2c r) l (auto r), None).
 
-  Inductive op := Register (c : cid) | Unregister (c : cid) | SetTargetInfo (l : labels).
+  (* Nop: anything that is not a call on the registry - a collector changing what it describes or collects,
+     created series being switched on or off; the environment may differ from one step to the next *)
+  Inductive op := Register (c : cid) | Unregister (c : cid) | SetTargetInfo (l : labels) | Nop.
 
-  Definition step_gen gn (r : reg) (o : op) : reg * option exn :=
+  Definition step_gen gn merge (r : reg) (o : op) : reg * option exn :=
     match o with
-    | Register c => register_gen gn r c
+    | Register c => register_gen gn merge r c
     | Unregister c => unregister r c
     | SetTargetInfo l => set_target_info r l
+    | Nop => (r, None)
     end.
 
-  Definition run_gen gn (r : reg) (ops : list op) : reg := fold_left (fun r o => fst (step_gen gn r o)) ops r.
+  (* a history during which no collector changes *)
+  Definition run_gen gn merge (r : reg) (ops : list op) : reg :=
+    fold_left (fun r o => fst (step_gen gn merge r o)) ops r.
 
-  Definition register := register_gen get_names.
-  Definition register_orig := register_gen get_names_orig.
-  Definition step := step_gen get_names.
-  Definition step_orig := step_gen get_names_orig.
-  Definition run := run_gen get_names.
-  Definition run_orig := run_gen get_names_orig.
+  Definition register := register_gen get_names true.
+  Definition register_orig := register_gen get_names_orig false.
+  Definition step := step_gen get_names true.
+  Definition step_orig := step_gen get_names_orig false.
+  Definition run := run_gen get_names true.
+  Definition run_orig := run_gen get_names_orig false.
 
   (* registry.py:130-133 *)
   Definition ti_family (r : reg) : list family :=
@@ -191,3 +202,8 @@ Section Registry.
   Definition restricted := restricted_gen true false.
   Definition restricted_orig := restricted_gen false true.
 End Registry.
+
+(* a history in which every step sees the collectors as they are at that moment *)
+Definition run_dyn_gen gn merge (r : reg) (eops : list ((cid -> cbeh) * op)) : reg :=
+  fold_left (fun r p => fst (step_gen (fst p) gn merge r (snd p))) eops r.
+Definition run_dyn := run_dyn_gen get_names true.
